@@ -447,6 +447,7 @@ def replay(ctx, case) -> None:
             if case.get("fmt"):
                 A.GroupAddress.address_format = FORMATS[case["fmt"]]
             check_raw(ctx, case["kind"], case.get("fmt"), int(case["raw"]))
+            ctx.case(("raw", case["kind"], case.get("fmt"), int(case["raw"])), True, "replay:raw")
         finally:
             A.GroupAddress.address_format = saved
     elif "text" in case:
